@@ -84,6 +84,20 @@ def run(ctx):
         ctx.feature('rings=%d' % min(case['nrings'], 4))
         if '))' in case['s']:
             ctx.feature('consecutive-closings')
+    # letters outside ASCII in node names and annotation values (the documented grammar does not restrict names to ASCII; the
+    # model does, so these are looked at by the denotation oracle alone)
+    rng_u = ctx.rng('non-ascii')
+    for _ in range(ctx.budget(40, 600)):
+        case = gen_graph.graph_case(rng_u, annos=False)
+        items = list(gen_graph.flat_items(case['ast']))
+        for it in rng_u.sample(items, min(len(items), rng_u.randint(1, 2))):
+            if rng_u.random() < 0.5:
+                it['name'] = rng_u.choice(['α', 'β1', 'Å', 'é'])
+            else:
+                it['anno'] = list(it.get('anno', [])) + [rng_u.choice(['unit=Å', 'lab=é', 'k=αβ'])]
+        case = dict(case, s='{' + gen_graph.render(case['ast']) + '}')
+        suites.run_read_case(ctx, 'graphstr-non-ascii', case['s'], oracle=oracle, case=case)
+    ctx.feature('non-ascii-names')
     # malformed stream: model fidelity on what the reader rejects / mis-reads
     for _ in range(ctx.budget(1500, 30000)):
         case = gen_graph.graph_case(rng, maxnodes=8, mult=rng.random() < 0.3)
